@@ -320,6 +320,9 @@ func (e *Engine) verifyFunc(fc *FuncContract) (res *FuncResult) {
 	pre := smtHeader + e.u.preamble() + smtPrelude
 	for _, o := range r.obls {
 		o.Script = pre + o.Script + "(check-sat)\n"
+		for i := range o.More {
+			o.More[i] = pre + o.More[i] + "(check-sat)\n"
+		}
 	}
 	res.Obligations = r.obls
 	return
@@ -448,9 +451,42 @@ func (r *Run) verifyTop() {
 	}
 	// reachability of the exit (anti-vacuity of assumed callee posts / invariants)
 	r.satCheck(out, r.funcLabel()+"#vacuity:exit", fc.Tags, tTrue)
+	perPath := len(r.topRets) > 1 && len(r.topRets) <= 16
 	for _, cl := range fc.Ensures {
-		g := r.evalBool(penv, cl)
-		r.oblige(out, "ensures", fmt.Sprintf("%s#ensures:%s", r.funcLabel(), cl.Label), mergeTags(cl.Tags, nil), g, cl.Src, true, fn.Pos())
+		if !perPath {
+			g := r.evalBool(penv, cl)
+			r.oblige(out, "ensures", fmt.Sprintf("%s#ensures:%s", r.funcLabel(), cl.Label), mergeTags(cl.Tags, nil), g, cl.Src, true, fn.Pos())
+			continue
+		}
+		// one query per return path (no ite-merged heaps), reported as one obligation
+		var sts []*State
+		var goals []Term
+		for _, rr := range r.topRets {
+			e2 := &SpecEnv{run: r, pkg: pkg, cur: rr.st, old: entry, vars: map[string]SV{}, fc: fc}
+			for k, v := range env.vars {
+				e2.vars[k] = v
+			}
+			for i, fv := range fn.FreeVars {
+				T := deref(fv.Type())
+				e2.vars[fv.Name()] = SV{t: sel(r.heapGet(rr.st, e.heapKeyObj(T)), bindings[i].(Term)), T: T}
+			}
+			for i := 0; i < sig.Results().Len(); i++ {
+				T := sig.Results().At(i).Type()
+				t, ok := rr.vals[i].(Term)
+				if !ok {
+					unsupported("result %d of %s is not a term", i, fn)
+				}
+				sv := SV{t: t, T: T}
+				e2.vars[rn[i]] = sv
+				e2.vars[fmt.Sprintf("result%d", i)] = sv
+				if sig.Results().Len() == 1 {
+					e2.vars["result"] = sv
+				}
+			}
+			sts = append(sts, rr.st)
+			goals = append(goals, r.evalBool(e2, cl))
+		}
+		r.obligeMulti(sts, goals, "ensures", fmt.Sprintf("%s#ensures:%s", r.funcLabel(), cl.Label), mergeTags(cl.Tags, nil), cl.Src, true, fn.Pos())
 	}
 	r.checkFrame(penv, entry, out)
 }
